@@ -132,6 +132,13 @@ func c08Eval(c *c08case) string {
 	if after.root != after.marshal {
 		return fmt.Sprintf("Root() != Marshal() after failed update\nRoot():    %s\nMarshal(): %s", after.root, after.marshal)
 	}
+	// a second failure in a row: the working copy was re-created from the root
+	// after the first one and must be as independent of it as the first copy was
+	if failed2, how2 := c08Failing(d, c); failed2 {
+		if after2 := c08Snap(d); before != after2 {
+			return fmt.Sprintf("state changed by the second of two failed updates in a row (%s)\nbefore: %+v\nafter:  %+v", how2, before, after2)
+		}
+	}
 	// the next successful update behaves as on an untouched document
 	e1 := c08Apply(d, c.Next, 200)
 	e2 := c08Apply(twin, c.Next, 200)
